@@ -89,6 +89,9 @@ impl Acc {
     #[inline]
     pub fn case(&mut self, nontrivial: bool, outcome: &str) {
         self.evaluations += 1;
+        if self.evaluations & 0x3fff == 0 {
+            heartbeat();
+        }
         if nontrivial {
             self.nontrivial += 1;
         }
@@ -1045,6 +1048,27 @@ impl Run {
     }
 }
 
+/// Sign of life from inside a long work item (worker side): at most one `H` line every 2 s. Called
+/// automatically every 16 384 recorded cases, so an item that keeps judging cases is never taken
+/// for a hang however long it is; a family whose items spend long stretches without recording a
+/// case can call it directly.
+pub fn heartbeat() {
+    use std::sync::atomic::{AtomicU64, Ordering};
+    static LAST_MS: AtomicU64 = AtomicU64::new(0);
+    static START: std::sync::OnceLock<Instant> = std::sync::OnceLock::new();
+    let now = START.get_or_init(Instant::now).elapsed().as_millis() as u64;
+    let last = LAST_MS.load(Ordering::Relaxed);
+    if now.saturating_sub(last) >= 2000 {
+        LAST_MS.store(now, Ordering::Relaxed);
+        if IN_WORKER.load(Ordering::Relaxed) {
+            let mut out = std::io::stdout().lock();
+            let _ = writeln!(out, "H");
+            let _ = out.flush();
+        }
+    }
+}
+static IN_WORKER: std::sync::atomic::AtomicBool = std::sync::atomic::AtomicBool::new(false);
+
 /// CPU seconds (user + system) a child has consumed so far, from /proc (Linux, 100 Hz ticks).
 fn child_cpu_s(pid: u32) -> Option<f64> {
     let stat = std::fs::read_to_string(format!("/proc/{pid}/stat")).ok()?;
@@ -1091,6 +1115,7 @@ where
     F: Fn(u64, &mut Acc) + Sync,
 {
     let stack = fam.stack_mb * 1024 * 1024;
+    IN_WORKER.store(true, std::sync::atomic::Ordering::Relaxed);
     std::thread::scope(|s| {
         let h = std::thread::Builder::new()
             .name("subject".into())
